@@ -993,6 +993,14 @@ def check(case, res):
         if s.get("r") != "ok":
             bad("harness:step", "driver step failed: %s" % s, i)
             continue
+        # whatever the history of a value (created null, assigned null, payload moved into a variable): a null value yields NULL data
+        for fld in ("val", "caller"):
+            iv = s.get(fld)
+            if isinstance(iv, dict) and iv.get("isnull") == 1:
+                for acc in ("boolean", "integer", "numeric", "literal", "tabchar", "imaginary", "table", "tuple"):
+                    a = iv.get(acc)
+                    if a and a[0] == 1 and a[1] is not None:
+                        bad("null-value-yields-data:%s" % acc, "value is null but bloc_%s gives data %r" % (acc, a[1]), i)
         if e is None:
             continue
         k = e[0]
